@@ -170,6 +170,7 @@ type interp struct {
 	// statistics for the non-triviality rules
 	readSealed, readL0x2, readDeep, delFlushed, swapReads int
 	ckptInFlight, ckptSecond, restores, crashPoints       int
+	idleChain                                             int // restored incarnations checkpointed without a write
 	flushedKeys                                           map[string]bool
 	gcs, reopens, chainDepth                              int
 	keep                                                  []*dkv.DB
@@ -274,6 +275,7 @@ func Exec(p Program, c *hx.Case, mode Mode) (err error) {
 	c.LabelIf(in.swapReads > 0, "read-across-swap")
 	c.LabelIf(in.ckptInFlight > 0, "checkpoint-with-task-in-flight")
 	c.LabelIf(in.restores > 0, "restore")
+	c.LabelIf(in.idleChain > 0, "restored-database-checkpointed-while-idle")
 	c.LabelIf(in.gcs > 0, "forced-gc")
 	c.LabelIf(in.walDropsChecked > 0, "wal-removal-after-retention-checked")
 	c.LabelIf(in.lateRetains > 0, "late-retention-update")
@@ -850,9 +852,15 @@ func (in *interp) restoreOne(step int, op Op) (err error) {
 	for k, v := range ck.snap {
 		model[k] = v
 	}
-	depth := 1 + ((op.B%2)+2)%2
+	// 1..3 further incarnations; each writes 6, 2 or no operations at all before
+	// it is checkpointed (a restored database may be checkpointed while idle)
+	depth := 1 + ((op.B%3)+3)%3
 	for d := 0; d < depth; d++ {
-		for i := 0; i < 6; i++ {
+		nw := []int{6, 0, 6, 2}[((op.B/3+d)%4+4)%4]
+		if nw == 0 {
+			in.idleChain++
+		}
+		for i := 0; i < nw; i++ {
 			k := in.key(op.B + i*3 + d)
 			if (op.B+i+d)%4 == 0 {
 				db.Delete(k)
